@@ -26,8 +26,9 @@ class C07(Driver):
     level = "exploration"
     flavours = ["plain"]
     budgets = {"quick": 50, "thorough": 900}
-    rule = ("plan = victim with 2-5 waits (sleep/take/give/select/read/chunk/write/proc-wait/thread, optional "
-            "with-deadline or timeout) x adversary actions at seeded simulated instants (abandon W_i, then fire its "
+    rule = ("plan = victim with 2-5 waits (sleep/take/give/select on ordinary and thread channels/read/chunk/write/accept/"
+            "proc-wait with and without :x/thread/gather, optional with-deadline, hand-spelt ev/deadline or timeout, wrappers, "
+            "waits under a C frame) x adversary actions at seeded simulated instants (abandon W_i, then fire its "
             "trigger while the victim is in W_i+1) x clock phase/jitter and byte-transfer faults; non-trivial = some "
             "wait was abandoned and its stale trigger fired later; distinct = sha256(plan, fired faults)")
     assumptions = ["each victim step uses its own channel/pipe/child, so a resume value names the wait it belongs to",
